@@ -20,6 +20,7 @@ LEVEL_TEXT = ("Phase-structure analysis of the lazy interpreter (MIR): (E6.p) al
               "index, i.e. by stanza position).  Together these are the structure that makes the result independent of stanza order.")
 LEVEL_NOTE = ("Not decided: equality of results over all permutations (a schedule-quantified behavioural statement).  Node numbering "
               "legitimately depends on order and is outside the property.")
+LEVEL_TEXT += (" (C06.C) the checker context holds no interior mutability, so the checker's verdict cannot depend on stanza order either.")
 
 
 def lazy_routing(prog, rep):
